@@ -609,6 +609,12 @@ def oracle_C05(rs, n, ctx):
                 d2 = tuple(x * c for x in d)
                 o2 = [x * c for x in o_r]
                 src2 = src * c if pow2 else abs_source(o2, [(src[a_] - o_r[a_]) * c for a_ in range(nd)], d2, cells)
+                if pow2 and not (np.array_equal(np.asarray(src2) / c, src) and all(x2 / c == x for x2, x in zip(d2, d))
+                                 and all(x2 / c == x for x2, x in zip(o2, o_r))
+                                 and np.array_equal((np.asarray(src2) - np.asarray(o2)) / c, np.asarray(src) - np.asarray(o_r))):
+                    # a power of two does not scale the inputs exactly (subnormal coordinate underflows): no premise
+                    R.bump("skipped_pow2_scaling_inexact_on_inputs")
+                    continue
                 b = eik(nd)(v, d2, o2).solve(src2, return_gradient=True)
         except Exception as ex:  # noqa: BLE001
             R.case(("exc", which))
@@ -751,7 +757,12 @@ def oracle_C06(rs, n, ctx):
                     R.bump("rays_compared")
                     rrep = dict(rep, end_point_hex=hexl(q1), honor_grid=hg)
                     if outs[0][0] != outs[1][0] or (outs[0][0] == "exc" and outs[0][1] != outs[1][1]):
-                        R.violate("C06:ray-outcome", f"ray outcome changes with the origin: {outs[0][0]}/{outs[0][1] if outs[0][0] == 'exc' else len(outs[0][1])} vs {outs[1][0]}/{outs[1][1] if outs[1][0] == 'exc' else len(outs[1][1])}", rrep)
+                        # known finding F19 (there for compiled vs interpreted): in cells elongated >= 4:1 grid-honouring rays
+                        # stall on grid lines (F15) depending on the sign of a gradient component that is zero up to
+                        # rounding, so whether the budget is exhausted changes with the rounding of translated coordinates
+                        budget_flip = hg and max(d) / min(d) >= 4 and {outs[0][0], outs[1][0]} == {"ok", "exc"} and \
+                            "RuntimeError" in (outs[0][1] if outs[0][0] == "exc" else outs[1][1])
+                        R.violate("C06:honor-grid-budget-sensitivity" if budget_flip else "C06:ray-outcome", f"ray outcome changes with the origin: {outs[0][0]}/{outs[0][1] if outs[0][0] == 'exc' else len(outs[0][1])} vs {outs[1][0]}/{outs[1][1] if outs[1][0] == 'exc' else len(outs[1][1])}", rrep)
                         continue
                     if outs[0][0] == "exc":
                         R.bump("rays_both_raise")
@@ -760,13 +771,15 @@ def oracle_C06(rs, n, ctx):
                     tolr = 1e-9 * size + 64 * 2.3e-16 * max(abs(x) for x in o)
                     m_ = min(len(r0), len(r1))
                     if abs(len(r0) - len(r1)) > 1:
-                        R.violate("C06:ray-length", f"translated ray has {len(r1)} vertices, the original {len(r0)}", rrep)
+                        # F21 again: the zigzag in elongated cells also shifts the number of steps by a few
+                        fewsteps = max(d) / min(d) > 4 and abs(len(r0) - len(r1)) <= max(2, 0.05 * len(r0))
+                        R.violate("C06:ray-sensitivity-elongated-cells" if fewsteps else "C06:ray-length", f"translated ray has {len(r1)} vertices, the original {len(r0)}", rrep)
                     elif m_ and np.abs(r0[:m_ - 1] - r1[:m_ - 1]).max(initial=0.0) > tolr:
                         dev = float(np.abs(r0[:m_ - 1] - r1[:m_ - 1]).max())
                         # known finding F21: in cells elongated by more than 4:1 a free-step ray zigzags between the
                         # faces of the thin axis over hundreds of steps and amplifies the rounding of the translated
                         # coordinates (identical gradient grids) to ~1e-4 of the model size
-                        sens = max(d) / min(d) > 4 and dev <= 1e-2 * size and len(r0) > 50
+                        sens = max(d) / min(d) > 4 and dev <= 1e-2 * size
                         R.violate("C06:ray-sensitivity-elongated-cells" if sens else "C06:ray", f"translated ray differs by {dev:.3e} > {tolr:.3e} ({len(r0)} vertices, aspect {max(d) / min(d):.0f})", rrep)
                     elif len(r0) != len(r1):
                         R.bump("rays_vertex_count_differs_by_one")
